@@ -39,7 +39,7 @@ CHECKS["C01"] = ("bfs", "model_checking",
     "(narrow, wide, coloured, underlined blanks, four images incl. equal content in a different allocation and a two-row one, two tiles of one sprite sheet, two glyphs, one of them under two faces and once inside a frame, non-ASCII white space, an image under two faces, reverse-video blanks of two colours; "
     "a glyph must show as the image its own rasterisation gives for that face and cell size) and continues to a fixpoint of the state graph; "
     "after every frame the screen must equal what a fresh renderer paints on a blank screen, the from-scratch screen must equal the direct reading of the surface when nothing overlaps, "
-    "and no command may address a cell outside the grid or print in the pending-wrap column. The library's own render loop is driven too: every program of up to 3 handler calls (surface x Wait / WaitNoFrame / Sleep(0) x next event timeout / wake / resize / more than 32 frames pending) through Terminal::run_render on a scripted terminal (0.6 M programs); after every rendered frame the screen must equal a from-scratch repaint.",
+    "and no command may address a cell outside the grid or print in the pending-wrap column. The library's own render loop is driven too: every program of up to 3 handler calls (surface x Wait / WaitNoFrame / Sleep(0) x next event timeout / wake / resize / more than 32 frames pending) through Terminal::run_render on a scripted terminal (0.6 M programs); after every rendered frame the screen must equal a from-scratch repaint; a slice of both spaces runs once more under a tracing subscriber that evaluates every log line.",
     "Trusts the VT semantics of model/screen.rs (ECH = background only, wide-character halves) and unicode-width; image z-order is not modelled; grids beyond the listed sizes are not explored.",
     "DESIGN.md §C01")
 
@@ -49,7 +49,7 @@ CHECKS["C16"] = ("bfs + devdfs (worker subprocesses)", "model_checking",
     "len() must equal the readable bytes, bytes come out in order exactly once, and a drop may remove only whole flush-delimited chunks that have not started; a second pass over one-byte and 64 KiB / 70 001-byte writes and consumes to depth 7 (9) and (read_to_end in the alphabet; after every history a probe continuation - 3 bytes, flush, 2 bytes, drain - must deliver everything pending plus the five bytes, and its chunk lengths are part of the state key) and a third over a 3.3 MB chunk with consumes of 1 MiB + 1 and 2.2 MB to depth 4 (5) cover buffer re-allocation and block-release thresholds. "
     "(b) The real UnixTerminal runs scripted write/execute/flush/poll/frames_drop sessions on a real pseudo-terminal while hook H2 lets the harness answer every "
     "select/write/read and own the clock; ALL schedules with at most 2 (3; short sessions 3 (4), in the quick tier not those pushing more than 64 KiB) departures from the cooperative answer (short write of 1 / half / len-1 bytes, EAGAIN, EINTR, "
-    "withheld or delayed writability) are executed to completion, for every crash point of every session (sessions with the kitty image handler active put an image command inside a frame that is dropped and inside an execute_many batch; with the size tracked by escape sequences a window-size signal may arrive at any point - the terminal's own size request may stand between chunks only); the bytes accepted by the tty must be the written chunks in order, whole, "
+    "withheld or delayed writability) are executed to completion, for every crash point of every session (sessions with the kitty image handler active put an image command inside a frame that is dropped and inside an execute_many batch; with the size tracked by escape sequences a window-size signal may arrive at any point - the terminal's own size request may stand between chunks only; every complete session once more with at most one deviation under a tracing subscriber that evaluates every log line); the bytes accepted by the tty must be the written chunks in order, whole, "
     "with only not-yet-started chunks missing after frames_drop.",
     "Kernel model (write accepts a prefix, select never invents readiness); encoder output taken as given (C05); sessions and payload sizes are the listed ones; more deviations than the bound are not explored.",
     "DESIGN.md §C16")
@@ -77,7 +77,7 @@ CHECKS["C11"] = ("bfs / history enumeration", "model_checking",
     "exhaustive enumeration of draw/erase/response histories on the real KittyImageHandler against an independent kitty-graphics parser and reference terminal image store",
     "All histories of depth 3 (no de-duplication; 1.19 M) and, de-duplicated by (transmitted ids, reference terminal state), depth 4 (6) over a 120-operation alphabet (8 images incl. 1x1, cropped/strided view, a crop taken after its parent was hashed and drawn, equal pixels in another allocation, "
     "empty, exactly-4096-byte payload, three-chunk payload; 4 positions incl. the origin and (65535,65535); draw, erase(Some), erase(None), OK and error responses for known and unknown ids, unrelated events) are executed on the real handler, "
-    "plus every history of 2 (3) operations over a second set of 11 images that differ in memory layout (row-major, transposed, windows with gaps, re-allocated copies; ids must be injective on content), volume histories (a 134 MB image drawn twice; thorough: 12 x 16 MiB and 40 x 4 MiB images twice), sinks that take 1 / 7 bytes per call, a first draw whose sink fails after 0 / 1 / 20 / 60 / 4300 bytes followed by a draw into a working sink, the .quiet() handler, histories through the library's `impl ImageHandler for Box<T>` (the way a terminal holds its handler; de-duplicated runs carry a probe continuation - every image drawn once more - in the state key), 1 024 single-pixel images over every channel value and thousands of sizes across the chunk boundaries. The emitted bytes are parsed by an independent APC/kitty parser and fed to a reference terminal store; "
+    "plus every history of 2 (3) operations over a second set of 11 images that differ in memory layout (row-major, transposed, windows with gaps, re-allocated copies; ids must be injective on content), volume histories (a 134 MB image drawn twice; thorough: 12 x 16 MiB and 40 x 4 MiB images twice), sinks that take 1 / 7 bytes per call, a first draw whose sink fails after 0 / 1 / 20 / 60 / 4300 bytes followed by a draw into a working sink, the .quiet() handler, two-operation histories under a tracing subscriber that evaluates every log line, histories through the library's `impl ImageHandler for Box<T>` (the way a terminal holds its handler; de-duplicated runs carry a probe continuation - every image drawn once more - in the state key), 1 024 single-pixel images over every channel value and thousands of sizes across the chunk boundaries. The emitted bytes are parsed by an independent APC/kitty parser and fed to a reference terminal store; "
     "oracle: valid commands, s/v = image size, f=32, chunks <= 4096 and multiples of 4 with correct m flags, payload base64-decodes to the exact RGBA pixels row-major, at most one transmission per content (plus one per evicting error), "
     "every put names a transmitted image, erase(img, Some(pos)) removes exactly the placement draw(img,pos) created.",
     "Trusts the reading of the kitty graphics protocol in model/kitty.rs (p=0 = unspecified); id hash collisions are out of reach of enumeration.",
@@ -85,7 +85,7 @@ CHECKS["C11"] = ("bfs / history enumeration", "model_checking",
 CHECKS["C12"] = ("sweep", "exploration",
     "exhaustive small-image sweep decoded by an independent sixel interpreter",
     "All colourings of 6x1 and 6x2 images over 3 colours and 6x3 over 2 (thorough: 6x2 over 4, 6x4, 12x1, 12x2), all constant-column single-band images up to width 12 (16), heights {6,7,11,12,13} x widths 1..5, >256 colour gradients, "
-    "alpha {0,128,255} over three backgrounds, 1 260 crops, every channel value, runs of fully transparent black pixels, images stored column-major (transposed views, plain and cropped), erase(Some) / erase(None) and four events passed to handle() between draws, a buffer repainted in place between two draws, repeated draws on shared handlers (incl. row-major / column-major twins over one pixel sequence and crops taken after the parent was drawn) and into sinks that take 1 / 7 bytes per call: 0.82 M (51.8 M) images. The emitted bytes are decoded by an independent sixel interpreter (raster attributes, colour registers, "
+    "alpha {0,128,255} over three backgrounds, 1 260 crops, every channel value, runs of fully transparent black pixels, images stored column-major (transposed views, plain and cropped), erase(Some) / erase(None) and four events passed to handle() between draws, a buffer repainted in place between two draws, the shared-handler families once more with logging switched on, repeated draws on shared handlers (incl. row-major / column-major twins over one pixel sequence and crops taken after the parent was drawn) and into sinks that take 1 / 7 bytes per call: 0.82 M (51.8 M) images. The emitted bytes are decoded by an independent sixel interpreter (raster attributes, colour registers, "
     "repeat, $, -) into an unpainted-initialised raster; oracle: one well-formed sequence, declared size = width x 6*floor(h/6), every pixel painted exactly inside the raster, only defined registers (<= 256), pixel-exact equality at 0-100 "
     "resolution when the colours fit and the image is not subsampled, second draw byte-identical.",
     "Trusts the sixel reading of model/sixel.rs; partial alpha is only checked to lie between pixel and background; images above the subsampling threshold are checked for structure only.",
@@ -175,7 +175,7 @@ CHECKS["C10"] = ("sweep", "exploration",
 CHECKS["C13"] = ("sweep", "exploration",
     "exhaustive small-image and small-palette sweeps against brute-force nearest-colour search",
     "All images of up to 4 (6) pixels over a 12-colour alphabet in every arrangement (crops of a poisoned border included), all multiset images with each colour 0..=2 times (so that the octree pruning loop is reached: it needs >= 9 distinct colours), subsampled periodic images, flat 1 x n images around the counts where a channel sum leaves the exact range of f32 (n = 65 788..65 812, 132 107, 197 381), all images of up to 4 pixels over three RGB values (black among them) x five alpha values, transposed images, images of 65 535 .. 67 584 distinct colours with 70 000 requested, "
-    "x requested sizes {1..10, 256} x dithering on/off x 2 (3) backgrounds (the alpha ladder over 5, two of them fully transparent): 15.8 M (414 M) quantisations; all palettes of 1-3 colours over a 4^3 lattice x 125 queries and 5 (8) structured palettes of 2..512 colours (xterm-256, clustered, all-equal, duplicates) (both public lookups, find and find_naive, at and around every entry) x ALL 2^24 queries against brute force. "
+    "x requested sizes {1..10, 256} x dithering on/off x 2 (3) backgrounds (the alpha ladder over 5, two of them fully transparent; one- and two-pixel images once more with logging switched on): 15.8 M (414 M) quantisations; all palettes of 1-3 colours over a 4^3 lattice x 125 queries and 5 (8) structured palettes of 2..512 colours (xterm-256, clustered, all-equal, duplicates) (both public lookups, find and find_naive, at and around every entry) x ALL 2^24 queries against brute force. "
     "Oracle: Some for non-empty images, 1 <= |palette| <= max(requested, 8), indices valid, without dithering each pixel maps to an entry at minimal squared RGB distance from the composited pixel, find is minimal for every query, exact reproduction when the distinct colours fit and the image is not subsampled; a watchdog turns a stuck pruning loop into a violation.",
     "Compositing of transparent pixels uses the rasterize crate's blend_over (assumed); which of several tied entries wins is not judged; palettes smaller than necessary are allowed by the statement (measured and reported as a lead).",
     "DESIGN.md §C13")
